@@ -576,6 +576,14 @@ class _Run:
                     return ("func", r.key)
                 if cn == "ModInfo":
                     return ("module", r.name)
+            mi = self.prog.modules.get(b[1])
+            if mi is not None:
+                okc, val = self.prog.resolve_constant(mi, e.attr)
+                if okc:
+                    return const(val)  # a named constant read through the module (lp.INFEASIBLE)
+                tab = self.prog.resolve_table(mi, e.attr)
+                if tab is not None:
+                    return self.eval(tab, {})
         if b[0] == "ext":
             return ("ext", b[1] + "." + e.attr)
         if b[0] == "tuple" and len(b) > 2 and e.attr in b[2]:
@@ -639,7 +647,23 @@ class _Run:
         return ("ifexp", f, self.eval(e.body, env), self.eval(e.orelse, env))
 
     def e_JoinedStr(self, e, env):
-        return ("str",)
+        # an f-string is the concatenation of its literal pieces and its formatted values
+        parts = []
+        for x in e.values:
+            if isinstance(x, ast.Constant):
+                parts.append(const(x.value))
+            elif isinstance(x, ast.FormattedValue):
+                v = self.eval(x.value, env)
+                if x.format_spec is None and x.conversion == -1 and isinstance(v, tuple) and v and v[0] in ("call", "mcall"):
+                    parts.append(v)  # f"{f(x)}" where f builds text: the text itself
+                else:
+                    parts.append(("fmt", v, norm(x.format_spec) if x.format_spec is not None else None, x.conversion))
+        if not parts:
+            return const("")
+        out = parts[0]
+        for x in parts[1:]:
+            out = ("bin", "Add", out, x)
+        return out
 
     def e_Lambda(self, e, env):
         return ("lambda", norm(e))
@@ -694,6 +718,7 @@ class _Run:
             if fwd is not None and not self.sim.inline(fwd) and self.fstack[-1].key != fwd:
                 f = ("func", fwd)
                 callee = self.callee_name(f)
+        args, kws = self._positional(f, args, kws)
         rec = self._record(f, args, kws) if f[0] == "class" else None
         if rec is not None:
             return rec
@@ -724,6 +749,36 @@ class _Run:
                     self.path.events.pop()
                     return self.inline_call(target.key, args, kws, e, f[1])
         return v
+
+    def _positional(self, f: V, args, kws):
+        """A call of a function of the package with arguments passed by name is the same call with them passed by
+        position: the keywords that continue the positional arguments in parameter order are moved there, so that the
+        rules read one form."""
+        if not kws or any(k is None for k, _v in kws) or any(isinstance(a, tuple) and a and a[0] == "star" for a in args):
+            return args, kws
+        target = None
+        skip = 0
+        if f[0] == "func":
+            target = self.prog.funcs.get(f[1])
+            if target is not None and target.kind == "classmethod":
+                skip = 1
+        elif f[0] == "attr":
+            target = self._method_target(f[1], f[2])
+            if target is not None and target.kind in ("method", "classmethod"):
+                skip = 1
+            elif target is not None and target.kind == "property":
+                target = None
+        if target is None:
+            return args, kws
+        a = target.node.args
+        if a.vararg is not None or a.kwarg is not None:
+            return args, kws
+        names = [x.arg for x in a.posonlyargs + a.args][skip:]
+        given = dict(kws)
+        out = list(args)
+        while len(out) < len(names) and names[len(out)] in given:
+            out.append(given.pop(names[len(out)]))
+        return tuple(out), tuple((k, v) for k, v in kws if k in given)
 
     def _record(self, f: V, args, kws) -> Optional[V]:
         """Construction of a NamedTuple class of the package: a tuple whose items can also be read by field name
